@@ -33,7 +33,8 @@ func init() {
 		ID:    "C08",
 		Level: "model_checking",
 		Rule: common + "Oracle per transition: the output delta of a text token contains its marker iff no ancestor on the input stack is a disallowed skip-content element or script/style (ancestors that are in the skip set but allowed are don't-care); markup fed inside such a region produces no output (apart from the spaces of AddSpaceWhenStrippingTag); outside it a text token yields exactly its escaped form once. Depth probes: 4 ... 65537 nested skip-content elements (both sides of 128, 256, 2^15, 2^16) with a marker between the closers, followed by <b>after</b>, give exactly <b>after</b>. " +
-			"non-trivial = transitions taken inside a skipped region.",
+			"non-trivial = transitions taken inside a skipped region." +
+			" Default-table layer: each of the ten element names the statement lists as skipped by default (written out in the check, not read from the library) alone, inside a kept element and after another skipped element, with text and markup inside, under three policies relying on the default table.",
 		Assumptions: []string{"if the overlay cannot locate the token loop the search falls back to plain enumeration of W-documents up to 6 tokens and reports exhaustive:false"},
 		QuickBudget: 50, ThoroughBudget: 800,
 		Run:    func(c *run.Ctx) { runE2(c, "C08") },
